@@ -56,14 +56,16 @@ func main() {
 		//result := "("
 		var result string
 		if lines/numNodes == 0 {
+			// fewer lines than nodes: one line per job (the last line used to be left out and nothing was printed)
 			var i uint64 = 1
-			for ; i < lines; i++ {
-				if i == lines-1 {
+			for ; i <= lines; i++ {
+				if i == lines {
 					result += fmt.Sprintf("%d-%d", i, i)
 				} else {
 					result += fmt.Sprintf("%d-%d ", i, i)
 				}
 			}
+			fmt.Print(result)
 		} else {
 			sizePerSlice := lines / numNodes
 			rest := lines % numNodes
